@@ -48,8 +48,15 @@ def generate(seed, tier, index):
     r = rng.random()
     nconn = rng.randint(27, 30) if r < 0.08 else rng.choice([1, 2, 3, 4])
     total = rng.randint(20, 140 if tier == 'quick' else 300)
-    per = [L.gen_conn_intents(seed, c, max(2, total // nconn), rng.choice(['churn', 'longchurn', 'objects', 'mixed']))
-           for c in range(nconn)]
+    if index % c02.DEEP_EVERY[tier] == 1:
+        # > 702 incarnations of one id: three-letter labels typed back as matchers
+        nconn = rng.choice([1, 2])
+        per = [L.gen_deep_intents(seed, 0)]
+        if nconn == 2:
+            per.append(L.gen_conn_intents(seed, 1, rng.randint(5, 60), rng.choice(['mixed', 'churn'])))
+    else:
+        per = [L.gen_conn_intents(seed, c, max(2, total // nconn), rng.choice(['churn', 'longchurn', 'objects', 'mixed']))
+               for c in range(nconn)]
     intents = L.interleave(rng, per)
     cfg = {'kind': 'session', 'nconn': nconn, 'sides': [rng.choice(['client', 'server']) for _ in range(nconn)],
            'dialect': L.pick_dialect(rng, nconn), 'epoch_us': 0, 'suppress': True, 'rig': 'component',
@@ -182,6 +189,10 @@ def execute(sc):
             V.add('C14/duplicate-name', 'names', 'connection names %r' % cnames)
         rng = random.Random(cfg['harvest_seed'])
         rng.shuffle(labels)
+        labels.sort(key=lambda l: 0 if len(l[2]) >= 3 else 1)      # three-letter labels, when the history reached them, are asked first (stable: the rest stays shuffled)
+        nlong = sum(1 for l in labels if len(l[2]) >= 3)
+        if nlong > 6:
+            labels = labels[:6] + labels[nlong:]
         queries = []
         for (cn, id_, gen) in labels[:cfg['max_queries']]:
             text = 'list %s: %d%s' % (cn, id_, gen)
@@ -217,6 +228,8 @@ def execute(sc):
             trigger_is_conn[0] = m['alts'][0]['obj'] is None
             S.judge_list(seg, {'t': 'list', 'm': m, 'cap': None}, fstate, None, recorded, names, t0, V, rep, list(names.values()))
             V.bump('queries_conn' if trigger_is_conn[0] else 'queries_label')
+            if not trigger_is_conn[0] and m['alts'][0]['obj'][2] >= 702:
+                V.bump('queries_label_three_letters')
         # labels typed into an *accumulating* command: `filter !`, `filter .<name>`, `filter X: <label>`, then `list` with no
         # argument must show exactly what the accumulated filter (name alternative OR label) selects
         if not V.list:
@@ -245,6 +258,8 @@ def execute(sc):
     maxgen = max([len(l) for c in st.world.conns for l in c.table.values()] or [0])
     if maxgen > 26:
         V.bump('probe_label_two_letters')
+    if maxgen > 702:
+        V.bump('probe_label_three_letters')
     if len(names) > 26:
         V.bump('probe_27th_connection')
     shape = tuple(sorted((len(l)) for c in st.world.conns for l in c.table.values()))
